@@ -1,4 +1,672 @@
 /- helper lemmas for C16 / C17 (aggregator machine invariants) -/
 import Panoptica.Model.Aggregator
 namespace Panoptica.Agg
+
+/-! ### auxiliary predicates on program counters -/
+
+/-- thread holds `inevalfilelock` -/
+def holds1 : PC → Bool
+  | .read | .writeBuf | .relL1 | .relL1Skip => true
+  | _ => false
+
+/-- thread holds `filelock` -/
+def holds2 : PC → Bool
+  | .writeOut1 | .writeOut2 | .relL2 | .sRead | .sRel => true
+  | _ => false
+
+/-- claimed in the buffer, row not yet appended -/
+def pending : PC → Bool
+  | .relL1 | .compute | .wantL2 | .writeOut1 => true
+  | _ => false
+
+/-- the row of this thread has been appended -/
+def wrote : PC → Bool
+  | .writeOut2 | .relL2 | .done => true
+  | _ => false
+
+def statPc : PC → Bool
+  | .sWant | .sRead | .sRel => true
+  | _ => false
+
+def initPc (kind : Nat → Kind) (i : Nat) : PC :=
+  match kind i with | .eval => .start | .stat => .sWant
+
+def names (l : List Row) : List Nat := l.map (·.name)
+
+theorem names_nil : names [] = [] := rfl
+
+theorem names_append (l : List Row) (r : Row) : names (l ++ [r]) = names l ++ [r.name] := by
+  simp [names]
+
+theorem mem_names_of_mem {l : List Row} {r : Row} (h : r ∈ l) : r.name ∈ names l :=
+  List.mem_map.mpr ⟨r, h, rfl⟩
+
+theorem exists_of_mem_names {l : List Row} {n : Nat} (h : n ∈ names l) : ∃ r ∈ l, r.name = n :=
+  List.mem_map.mp h
+
+/-! ### completeLast -/
+
+theorem names_completeLast : ∀ l : List Row, names (completeLast l) = names l
+  | [] => rfl
+  | [r] => rfl
+  | r :: r' :: rs => by
+    have ih := names_completeLast (r' :: rs)
+    simp only [completeLast, names, List.map_cons] at ih ⊢
+    rw [ih]
+
+theorem completeLast_complete : ∀ l : List Row,
+    (∀ r ∈ l.dropLast, r.complete = true) → ∀ r ∈ completeLast l, r.complete = true
+  | [], _, r, hr => by simp [completeLast] at hr
+  | [x], _, r, hr => by
+    simp only [completeLast, List.mem_singleton] at hr
+    subst hr; rfl
+  | x :: y :: rs, h, r, hr => by
+    simp only [completeLast, List.mem_cons] at hr
+    rw [List.dropLast_cons_cons] at h
+    rcases hr with hr | hr
+    · subst hr; exact h r List.mem_cons_self
+    · exact completeLast_complete (y :: rs) (fun r' hr' => h r' (List.mem_cons_of_mem _ hr')) r hr
+
+/-- every row of `completeLast l` comes from a row of `l` with the same name and thread, and is
+    that very row if the latter was complete -/
+theorem mem_completeLast : ∀ (l : List Row) (r : Row), r ∈ completeLast l →
+    ∃ r' ∈ l, r'.name = r.name ∧ r'.tid = r.tid ∧ (r'.complete = true → r' = r)
+  | [], r, hr => by simp [completeLast] at hr
+  | [x], r, hr => by
+    simp only [completeLast, List.mem_singleton] at hr
+    subst hr
+    refine ⟨x, List.mem_singleton.mpr rfl, rfl, rfl, ?_⟩
+    intro hc; cases x; simp_all
+  | x :: y :: rs, r, hr => by
+    simp only [completeLast, List.mem_cons] at hr
+    rcases hr with hr | hr
+    · subst hr; exact ⟨r, List.mem_cons_self, rfl, rfl, fun _ => rfl⟩
+    · obtain ⟨r', h1, h2⟩ := mem_completeLast (y :: rs) r hr
+      exact ⟨r', List.mem_cons_of_mem _ h1, h2⟩
+
+theorem mem_completeLast_of_complete : ∀ (l : List Row) (r : Row), r ∈ l → r.complete = true →
+    r ∈ completeLast l
+  | [], r, hr, _ => by simp at hr
+  | [x], r, hr, hc => by
+    simp only [List.mem_singleton] at hr
+    subst hr
+    simp only [completeLast, List.mem_singleton]
+    cases r; simp_all
+  | x :: y :: rs, r, hr, hc => by
+    simp only [completeLast, List.mem_cons]
+    rcases List.mem_cons.mp hr with hr | hr
+    · exact Or.inl hr
+    · exact Or.inr (mem_completeLast_of_complete (y :: rs) r hr hc)
+
+/-! ### the protocol invariant -/
+
+structure Inv (name : Nat → Nat) (kind : Nat → Kind) (old : List Row) (s : St) : Prop where
+  bufNodup : s.buf.Nodup
+  outNodup : (names s.out).Nodup
+  outSub : ∀ n ∈ names s.out, n ∈ s.buf
+  l1Own : ∀ i, holds1 (s.pc i) = true ↔ s.l1 = some i
+  l2Own : ∀ i, holds2 (s.pc i) = true ↔ s.l2 = some i
+  pendIn : ∀ i, pending (s.pc i) = true → name i ∈ s.buf ∧ name i ∉ names s.out
+  pendUniq : ∀ i j, pending (s.pc i) = true → pending (s.pc j) = true → name i = name j → i = j
+  wbFresh : ∀ i, s.pc i = .writeBuf → name i ∉ s.buf
+  covered : ∀ n ∈ s.buf, n ∈ names s.out ∨ ∃ i, pending (s.pc i) = true ∧ name i = n
+  doneIn : ∀ i, kind i = .eval →
+    (s.pc i = .done ∨ s.pc i = .relL2 ∨ s.pc i = .relL1Skip ∨ s.pc i = .writeOut2) → name i ∈ s.buf
+  partialA : ∀ r ∈ s.out.dropLast, r.complete = true
+  partialB : ∀ r ∈ s.out, r.complete = false → s.pc r.tid = .writeOut2
+  rowTid : ∀ r ∈ s.out, r ∈ old ∨ (kind r.tid = .eval ∧ name r.tid = r.name ∧ wrote (s.pc r.tid) = true)
+  oldC : ∀ r ∈ old, r.complete = true
+  oldKept : ∀ r ∈ old, r ∈ s.out
+  seenC : ∀ i, ∀ r ∈ s.seen i, r.complete = true
+  kindStat : ∀ i, kind i = .stat → statPc (s.pc i) = true ∨ s.pc i = .done
+  kindEval : ∀ i, kind i = .eval → statPc (s.pc i) = false
+
+section steps
+variable (name : Nat → Nat) (kind : Nat → Kind) (old : List Row) (s : St) (i : Nat)
+
+theorem inv_start (h : Inv name kind old s) (hpc : s.pc i = .start) (hl : s.l1 = none) :
+    Inv name kind old { s with l1 := some i, pc := upd s.pc i .read } := by
+  obtain ⟨h1,h2,h3,h4,h5,h6,h7,h8,h9,h10,h11,h12,h13,h14,h15,h16,h17,h18⟩ := h
+  constructor <;> (try simp only []) <;>
+    grind [upd, holds1, holds2, pending, wrote, statPc, List.nodup_append]
+
+theorem inv_readSkip (h : Inv name kind old s) (hpc : s.pc i = .read) (hb : name i ∈ s.buf) :
+    Inv name kind old { s with pc := upd s.pc i .relL1Skip } := by
+  obtain ⟨h1,h2,h3,h4,h5,h6,h7,h8,h9,h10,h11,h12,h13,h14,h15,h16,h17,h18⟩ := h
+  constructor <;> (try simp only []) <;>
+    grind [upd, holds1, holds2, pending, wrote, statPc, List.nodup_append]
+
+theorem inv_readNew (h : Inv name kind old s) (hpc : s.pc i = .read) (hb : name i ∉ s.buf) :
+    Inv name kind old { s with pc := upd s.pc i .writeBuf } := by
+  obtain ⟨h1,h2,h3,h4,h5,h6,h7,h8,h9,h10,h11,h12,h13,h14,h15,h16,h17,h18⟩ := h
+  constructor <;> (try simp only []) <;>
+    grind [upd, holds1, holds2, pending, wrote, statPc, List.nodup_append]
+
+theorem inv_writeBuf (h : Inv name kind old s) (hpc : s.pc i = .writeBuf)  :
+    Inv name kind old { s with buf := s.buf ++ [name i], pc := upd s.pc i .relL1 } := by
+  obtain ⟨h1,h2,h3,h4,h5,h6,h7,h8,h9,h10,h11,h12,h13,h14,h15,h16,h17,h18⟩ := h
+  constructor <;> (try simp only []) <;>
+    grind [upd, holds1, holds2, pending, wrote, statPc, List.nodup_append]
+
+theorem inv_relL1 (h : Inv name kind old s) (hpc : s.pc i = .relL1)  :
+    Inv name kind old { s with l1 := none, pc := upd s.pc i .compute } := by
+  obtain ⟨h1,h2,h3,h4,h5,h6,h7,h8,h9,h10,h11,h12,h13,h14,h15,h16,h17,h18⟩ := h
+  constructor <;> (try simp only []) <;>
+    grind [upd, holds1, holds2, pending, wrote, statPc, List.nodup_append]
+
+theorem inv_relL1Skip (h : Inv name kind old s) (hpc : s.pc i = .relL1Skip)  :
+    Inv name kind old { s with l1 := none, pc := upd s.pc i .done } := by
+  obtain ⟨h1,h2,h3,h4,h5,h6,h7,h8,h9,h10,h11,h12,h13,h14,h15,h16,h17,h18⟩ := h
+  constructor <;> (try simp only []) <;>
+    grind [upd, holds1, holds2, pending, wrote, statPc, List.nodup_append]
+
+theorem inv_compute (h : Inv name kind old s) (hpc : s.pc i = .compute)  :
+    Inv name kind old { s with pc := upd s.pc i .wantL2 } := by
+  obtain ⟨h1,h2,h3,h4,h5,h6,h7,h8,h9,h10,h11,h12,h13,h14,h15,h16,h17,h18⟩ := h
+  constructor <;> (try simp only []) <;>
+    grind [upd, holds1, holds2, pending, wrote, statPc, List.nodup_append]
+
+theorem inv_wantL2 (h : Inv name kind old s) (hpc : s.pc i = .wantL2) (hl : s.l2 = none) :
+    Inv name kind old { s with l2 := some i, pc := upd s.pc i .writeOut1 } := by
+  obtain ⟨h1,h2,h3,h4,h5,h6,h7,h8,h9,h10,h11,h12,h13,h14,h15,h16,h17,h18⟩ := h
+  constructor <;> (try simp only []) <;>
+    grind [upd, holds1, holds2, pending, wrote, statPc, List.nodup_append]
+
+theorem inv_writeOut1 (h : Inv name kind old s) (hpc : s.pc i = .writeOut1)  :
+    Inv name kind old { s with out := s.out ++ [⟨name i, i, false⟩], pc := upd s.pc i .writeOut2 } := by
+  obtain ⟨h1,h2,h3,h4,h5,h6,h7,h8,h9,h10,h11,h12,h13,h14,h15,h16,h17,h18⟩ := h
+  have e5 := names_append s.out ⟨name i, i, false⟩
+  have hk : kind i = .eval := by
+    cases hk : kind i with
+    | eval => rfl
+    | stat => have := h17 i hk; simp [hpc, statPc] at this
+  have e6 : (s.out ++ [(⟨name i, i, false⟩ : Row)]).dropLast = s.out := List.dropLast_concat
+  constructor <;> (try simp only []) <;>
+    grind [upd, holds1, holds2, pending, wrote, statPc, List.nodup_append]
+
+theorem inv_writeOut2 (h : Inv name kind old s) (hpc : s.pc i = .writeOut2)  :
+    Inv name kind old { s with out := completeLast s.out, pc := upd s.pc i .relL2 } := by
+  obtain ⟨h1,h2,h3,h4,h5,h6,h7,h8,h9,h10,h11,h12,h13,h14,h15,h16,h17,h18⟩ := h
+  have e1 := names_completeLast s.out
+  have e2 := completeLast_complete s.out h11
+  have e3 := mem_completeLast s.out
+  have e4 := mem_completeLast_of_complete s.out
+  have e7 : ∀ r ∈ (completeLast s.out).dropLast, r ∈ completeLast s.out := fun r hr => List.dropLast_subset _ hr
+  constructor <;> (try simp only []) <;>
+    grind [upd, holds1, holds2, pending, wrote, statPc, List.nodup_append]
+
+theorem inv_relL2 (h : Inv name kind old s) (hpc : s.pc i = .relL2)  :
+    Inv name kind old { s with l2 := none, pc := upd s.pc i .done } := by
+  obtain ⟨h1,h2,h3,h4,h5,h6,h7,h8,h9,h10,h11,h12,h13,h14,h15,h16,h17,h18⟩ := h
+  constructor <;> (try simp only []) <;>
+    grind [upd, holds1, holds2, pending, wrote, statPc, List.nodup_append]
+
+theorem inv_sWant (h : Inv name kind old s) (hpc : s.pc i = .sWant) (hl : s.l2 = none) :
+    Inv name kind old { s with l2 := some i, pc := upd s.pc i .sRead } := by
+  obtain ⟨h1,h2,h3,h4,h5,h6,h7,h8,h9,h10,h11,h12,h13,h14,h15,h16,h17,h18⟩ := h
+  constructor <;> (try simp only []) <;>
+    grind [upd, holds1, holds2, pending, wrote, statPc, List.nodup_append]
+
+theorem inv_sRead (h : Inv name kind old s) (hpc : s.pc i = .sRead)  :
+    Inv name kind old { s with seen := upd s.seen i s.out, pc := upd s.pc i .sRel } := by
+  obtain ⟨h1,h2,h3,h4,h5,h6,h7,h8,h9,h10,h11,h12,h13,h14,h15,h16,h17,h18⟩ := h
+  constructor <;> (try simp only []) <;>
+    grind [upd, holds1, holds2, pending, wrote, statPc, List.nodup_append]
+
+theorem inv_sRel (h : Inv name kind old s) (hpc : s.pc i = .sRel)  :
+    Inv name kind old { s with l2 := none, pc := upd s.pc i .done } := by
+  obtain ⟨h1,h2,h3,h4,h5,h6,h7,h8,h9,h10,h11,h12,h13,h14,h15,h16,h17,h18⟩ := h
+  constructor <;> (try simp only []) <;>
+    grind [upd, holds1, holds2, pending, wrote, statPc, List.nodup_append]
+
+end steps
+
+theorem step_inv (name : Nat → Nat) (kind : Nat → Kind) (old : List Row) (s s' : St) (i : Nat)
+    (h : Inv name kind old s) (hs : step name s i = some s') : Inv name kind old s' := by
+  unfold step at hs
+  split at hs
+  all_goals (try split at hs) <;> (try cases hs) <;> (try (injection hs with hs; subst hs))
+  · exact inv_start name kind old s i h ‹_› ‹_›
+  · exact inv_readSkip name kind old s i h ‹_› ‹_›
+  · exact inv_readNew name kind old s i h ‹_› ‹_›
+  · exact inv_writeBuf name kind old s i h ‹_›
+  · exact inv_relL1 name kind old s i h ‹_›
+  · exact inv_relL1Skip name kind old s i h ‹_›
+  · exact inv_compute name kind old s i h ‹_›
+  · exact inv_wantL2 name kind old s i h ‹_› ‹_›
+  · exact inv_writeOut1 name kind old s i h ‹_›
+  · exact inv_writeOut2 name kind old s i h ‹_›
+  · exact inv_relL2 name kind old s i h ‹_›
+  · exact inv_sWant name kind old s i h ‹_› ‹_›
+  · exact inv_sRead name kind old s i h ‹_›
+  · exact inv_sRel name kind old s i h ‹_›
+
+section runs
+variable (name : Nat → Nat) (kind : Nat → Kind)
+
+theorem run_inv (old : List Row) (sched : List Nat) :
+    ∀ s, Inv name kind old s → Inv name kind old (run name s sched) := by
+  induction sched with
+  | nil => intro s h; exact h
+  | cons i is ih =>
+    intro s h
+    unfold run
+    split
+    · rename_i s' hs; exact ih s' (step_inv name kind old s s' i h hs)
+    · exact ih s h
+
+theorem initPc_cases (i : Nat) : initPc kind i = .start ∨ initPc kind i = .sWant := by
+  unfold initPc; cases kind i <;> simp
+
+theorem initSt_pc (old : List Row) (i : Nat) : (initSt kind old).pc i = initPc kind i := rfl
+
+theorem init_inv (old : List Row) (hn : (names old).Nodup) (hc : ∀ r ∈ old, r.complete = true) :
+    Inv name kind old (initSt kind old) := by
+  have hp : ∀ i, (initSt kind old).pc i = .start ∨ (initSt kind old).pc i = .sWant := initPc_cases kind
+  have hk : ∀ i, kind i = .stat → (initSt kind old).pc i = .sWant := by
+    intro i h; simp [initSt, h]
+  have hk' : ∀ i, kind i = .eval → (initSt kind old).pc i = .start := by
+    intro i h; simp [initSt, h]
+  have hb : (initSt kind old).buf = names old := rfl
+  have ho : (initSt kind old).out = old := rfl
+  have h1 : (initSt kind old).l1 = none := rfl
+  have h2 : (initSt kind old).l2 = none := rfl
+  have hs : ∀ i, (initSt kind old).seen i = [] := fun _ => rfl
+  have hd : ∀ r ∈ old.dropLast, r ∈ old := fun r hr => List.dropLast_subset _ hr
+  constructor <;> grind [holds1, holds2, pending, wrote, statPc]
+
+/-- every thread that has left its initial program counter is below `N` -/
+def Moved (N : Nat) (s : St) : Prop := ∀ i, s.pc i ≠ initPc kind i → i < N
+
+theorem init_moved (old : List Row) (N : Nat) : Moved kind N (initSt kind old) := by
+  intro i h; exact absurd rfl h
+
+theorem step_progress (s s' : St) (i : Nat) (h : step name s i = some s') :
+    remaining (s'.pc i) < remaining (s.pc i) ∧ ∀ j, j ≠ i → s'.pc j = s.pc j := by
+  unfold step at h
+  split at h
+  all_goals (try split at h) <;> (try cases h) <;> (try (injection h with h; subst h))
+  all_goals simp_all [upd, remaining]
+
+theorem step_moved (N : Nat) (s s' : St) (i : Nat) (hi : i < N) (hm : Moved kind N s)
+    (h : step name s i = some s') : Moved kind N s' := by
+  intro j hj
+  by_cases hji : j = i
+  · subst hji; exact hi
+  · rw [(step_progress name s s' i h).2 j hji] at hj; exact hm j hj
+
+theorem run_moved (N : Nat) (sched : List Nat) :
+    ∀ s, (∀ i ∈ sched, i < N) → Moved kind N s → Moved kind N (run name s sched) := by
+  induction sched with
+  | nil => intro s _ h; exact h
+  | cons i is ih =>
+    intro s hs h
+    unfold run
+    split
+    · rename_i s' hst
+      exact ih s' (fun j hj => hs j (List.mem_cons_of_mem _ hj))
+        (step_moved name kind N s s' i (hs i List.mem_cons_self) h hst)
+    · exact ih s (fun j hj => hs j (List.mem_cons_of_mem _ hj)) h
+
+theorem run_append (s : St) (a b : List Nat) : run name s (a ++ b) = run name (run name s a) b := by
+  induction a generalizing s with
+  | nil => rfl
+  | cons i is ih =>
+    simp only [List.cons_append, run]
+    split <;> exact ih _
+
+theorem final_rows_gen (old : List Row) (N : Nat) (s : St) (hinv : Inv name kind old s)
+    (hm : Moved kind N s) (hdone : ∀ i < N, s.pc i = .done) :
+    (names s.out).Nodup ∧ (∀ r ∈ s.out, r.complete = true) ∧
+    (∀ i < N, kind i = .eval → ∃ r ∈ s.out, r.name = name i) ∧
+    (∀ r ∈ old, r ∈ s.out) ∧
+    (∀ r ∈ s.out, r ∈ old ∨ (r.tid < N ∧ kind r.tid = .eval ∧ name r.tid = r.name)) := by
+  have hmv : ∀ j, s.pc j ≠ .start → s.pc j ≠ .sWant → s.pc j = .done := by
+    intro j h1 h2
+    apply hdone j (hm j _)
+    rcases initPc_cases kind j with h | h <;> rw [h] <;> assumption
+  refine ⟨hinv.outNodup, ?_, ?_, hinv.oldKept, ?_⟩
+  · intro r hr
+    cases hc : r.complete with
+    | true => rfl
+    | false =>
+      have h1 := hinv.partialB r hr hc
+      have h2 := hmv r.tid (by simp [h1]) (by simp [h1])
+      rw [h1] at h2; cases h2
+  · intro i hi hk
+    have hb := hinv.doneIn i hk (Or.inl (hdone i hi))
+    rcases hinv.covered _ hb with h | ⟨j, hj, hn⟩
+    · exact exists_of_mem_names h
+    · have h2 := hmv j (by intro h; simp [h, pending] at hj) (by intro h; simp [h, pending] at hj)
+      simp [h2, pending] at hj
+  · intro r hr
+    rcases hinv.rowTid r hr with h | ⟨h1, h2, h3⟩
+    · exact Or.inl h
+    · refine Or.inr ⟨hm r.tid ?_, h1, h2⟩
+      rcases initPc_cases kind r.tid with h | h <;> rw [h] <;> intro h' <;> simp [h', wrote] at h3
+
+theorem no_deadlock_gen (old : List Row) (N : Nat) (s : St) (h : Inv name kind old s)
+    (hm : Moved kind N s) (i : Nat) (hiN : i < N) (hi : s.pc i ≠ .done) :
+    ∃ j, j < N ∧ (step name s j).isSome = true := by
+  by_cases h1 : (step name s i).isSome
+  · exact ⟨i, hiN, h1⟩
+  · have key1 : ∀ o, s.l1 = some o → ∃ j, j < N ∧ (step name s j).isSome = true := by
+      intro o ho
+      have := (h.l1Own o).mpr ho
+      refine ⟨o, hm o ?_, ?_⟩
+      · rcases initPc_cases kind o with h' | h' <;> rw [h'] <;> intro h'' <;> simp [h'', holds1] at this
+      · unfold step
+        revert this
+        cases hpo : s.pc o <;> simp [holds1]
+        split <;> rfl
+    have key2 : ∀ o, s.l2 = some o → ∃ j, j < N ∧ (step name s j).isSome = true := by
+      intro o ho
+      have := (h.l2Own o).mpr ho
+      refine ⟨o, hm o ?_, ?_⟩
+      · rcases initPc_cases kind o with h' | h' <;> rw [h'] <;> intro h'' <;> simp [h'', holds2] at this
+      · unfold step
+        revert this
+        cases hpo : s.pc o <;> simp [holds2]
+    unfold step at h1
+    split at h1 <;> simp_all
+    all_goals
+      first
+      | (split at h1 <;> simp at h1; done)
+      | (obtain ⟨o, ho⟩ := Option.ne_none_iff_exists'.mp h1; exact key1 o ho)
+      | (obtain ⟨o, ho⟩ := Option.ne_none_iff_exists'.mp h1; exact key2 o ho)
+
+/-- total number of steps the threads below `N` still have to take -/
+def total (pc : Nat → PC) : Nat → Nat
+  | 0 => 0
+  | n + 1 => total pc n + remaining (pc n)
+
+theorem total_congr (f g : Nat → PC) : ∀ N, (∀ i < N, f i = g i) → total f N = total g N
+  | 0, _ => rfl
+  | n + 1, h => by
+    simp only [total]
+    rw [total_congr f g n (fun i hi => h i (Nat.lt_succ_of_lt hi)), h n (Nat.lt_succ_self n)]
+
+theorem total_lt (f g : Nat → PC) (j : Nat) (hj : remaining (f j) < remaining (g j))
+    (ho : ∀ i, i ≠ j → f i = g i) : ∀ N, j < N → total f N < total g N
+  | 0, h => absurd h (Nat.not_lt_zero _)
+  | n + 1, h => by
+    simp only [total]
+    by_cases hjn : j = n
+    · subst hjn
+      rw [total_congr f g j (fun i hi => ho i (Nat.ne_of_lt hi))]
+      omega
+    · have := total_lt f g j hj ho n (by omega)
+      rw [ho n (fun h => hjn h.symm)]
+      omega
+
+theorem total_zero (f : Nat → PC) : ∀ N, total f N = 0 → ∀ i < N, f i = .done
+  | 0, _, i, hi => absurd hi (Nat.not_lt_zero _)
+  | n + 1, h, i, hi => by
+    simp only [total] at h
+    by_cases hin : i = n
+    · subst hin
+      have : remaining (f i) = 0 := by omega
+      revert this; cases f i <;> simp [remaining]
+    · exact total_zero f n (by omega) i (by omega)
+
+theorem can_finish_gen (old : List Row) (N : Nat) : ∀ (m : Nat) (s : St), total s.pc N = m →
+    Inv name kind old s → Moved kind N s →
+    ∃ more : List Nat, (∀ i ∈ more, i < N) ∧ ∀ i < N, (run name s more).pc i = .done := by
+  intro m
+  induction m using Nat.strongRecOn with
+  | _ m ih =>
+    intro s hm hinv hmv
+    by_cases hall : ∀ i < N, s.pc i = .done
+    · exact ⟨[], by simp, hall⟩
+    · have ⟨i, hi⟩ : ∃ i, i < N ∧ s.pc i ≠ .done := by
+        apply Classical.byContradiction
+        intro hne
+        apply hall
+        intro i hi
+        apply Classical.byContradiction
+        intro hd
+        exact hne ⟨i, hi, hd⟩
+      obtain ⟨j, hjN, hj⟩ := no_deadlock_gen name kind old N s hinv hmv i hi.1 hi.2
+      obtain ⟨s', hs'⟩ := Option.isSome_iff_exists.mp hj
+      have hp := step_progress name s s' j hs'
+      have hlt : total s'.pc N < m := by
+        rw [← hm]; exact total_lt s'.pc s.pc j hp.1 hp.2 N hjN
+      obtain ⟨more, h1, h2⟩ := ih _ hlt s' rfl (step_inv name kind old s s' j hinv hs')
+        (step_moved name kind N s s' j hjN hmv hs')
+      refine ⟨j :: more, ?_, ?_⟩
+      · intro k hk
+        rcases List.mem_cons.mp hk with hk | hk
+        · subst hk; exact hjN
+        · exact h1 k hk
+      · intro k hk
+        simp only [run, hs']
+        exact h2 k hk
+
+end runs
+
+/-! ### constructor, crash, restart -/
+
+section world
+variable (name : Nat → Nat)
+
+/-- same as `C17.FileOK` -/
+def FileOK' (w : World) : Prop :=
+  (w.outExists = false → w.hdrs = 0 ∧ w.st.out = []) ∧
+  w.hdrs ≤ 1 ∧
+  (w.st.out ≠ [] → w.hdrs = 1) ∧
+  (w.st.out.map (·.name)).Nodup ∧
+  (∀ r ∈ w.st.out, r.complete = false → w.phase = .running ∧ w.st.pc r.tid = .writeOut2)
+
+/-- what the constructor has established when it is about to execute `pc` -/
+def CtorOK (w : World) : CPC → Prop
+  | .checkExists => True
+  | .writeHdrNew => w.outExists = false
+  | .readHdr => w.outExists = true
+  | .writeHdrEmpty => w.outExists = true ∧ w.hdrs = 0 ∧ w.st.out = []
+  | .rmBuf => w.outExists = true ∧ w.hdrs = 1
+  | .mkBuf => w.outExists = true ∧ w.hdrs = 1 ∧ w.st.buf = []
+  | .acq1 => w.outExists = true ∧ w.hdrs = 1 ∧ w.st.buf = []
+  | .acq2 => w.outExists = true ∧ w.hdrs = 1 ∧ w.st.buf = [] ∧ w.st.l1 = some 0
+  | .readIds => w.outExists = true ∧ w.hdrs = 1 ∧ w.st.buf = [] ∧ w.st.l1 = some 0 ∧ w.st.l2 = some 0
+  | .writeIds ids => w.outExists = true ∧ w.hdrs = 1 ∧ w.st.buf = [] ∧ w.st.l1 = some 0 ∧
+      w.st.l2 = some 0 ∧ ids = names w.st.out
+  | .rel2 => w.outExists = true ∧ w.hdrs = 1 ∧ w.st.buf = names w.st.out ∧ w.st.l1 = some 0 ∧
+      w.st.l2 = some 0
+  | .rel1 => w.outExists = true ∧ w.hdrs = 1 ∧ w.st.buf = names w.st.out ∧ w.st.l1 = some 0 ∧
+      w.st.l2 = none
+
+def PhaseOK (w : World) : Phase → Prop
+  | .idle => True
+  | .failed => False
+  | .running => w.outExists = true ∧ w.hdrs = 1 ∧ ∃ kind old, Inv name kind old w.st
+  | .ctor pc => (∃ kind, w.st.pc = initPc kind ∧ w.st.seen = fun _ => []) ∧ CtorOK w pc
+
+def WInv (w : World) : Prop := FileOK' w ∧ PhaseOK name w w.phase
+
+theorem initSt_eq (kind : Nat → Kind) (st : St) (h1 : st.buf = names st.out) (h2 : st.l2 = none)
+    (h3 : st.pc = initPc kind) (h4 : st.seen = fun _ => []) :
+    { st with l1 := none } = initSt kind st.out := by
+  obtain ⟨b, o, l1, l2, pc, seen⟩ := st
+  simp only at h1 h2 h3 h4
+  subst h1 h2 h3 h4
+  rfl
+
+theorem step_out_kept (s s' : St) (i : Nat) (h : step name s i = some s') (r : Row)
+    (hr : r ∈ s.out) (hc : r.complete = true) : r ∈ s'.out := by
+  have e4 := mem_completeLast_of_complete s.out r hr hc
+  unfold step at h
+  split at h
+  all_goals (try split at h) <;> (try cases h) <;> (try (injection h with h; subst h))
+  all_goals simp_all
+
+theorem wstep_out_kept (w : World) (op : Op) (r : Row)
+    (hr : r ∈ w.st.out) (hc : r.complete = true) : r ∈ (wstep name w op).st.out := by
+  cases op with
+  | newSession kind => simp only [wstep]; split <;> exact hr
+  | ctor =>
+    simp only [wstep]; split
+    · rename_i pc _
+      cases pc <;> simp only [ctorStep] <;> (try split) <;> (try split) <;> exact hr
+    · exact hr
+  | thread i =>
+    simp only [wstep]; split
+    · split
+      · rename_i s' hs; exact step_out_kept name w.st s' i hs r hr hc
+      · exact hr
+    · exact hr
+  | crash => simp only [wstep]; split <;> exact hr
+
+theorem wrun_out_kept (ops : List Op) : ∀ (w : World) (r : Row),
+    r ∈ w.st.out → r.complete = true → r ∈ (wrun name w ops).st.out := by
+  induction ops with
+  | nil => intro w r hr _; exact hr
+  | cons op ops ih =>
+    intro w r hr hc
+    exact ih (wstep name w op) r (wstep_out_kept name w op r hr hc) hc
+
+theorem rows_complete_of_not_running (w : World) (hf : FileOK' w) (hp : w.phase ≠ .running) :
+    ∀ r ∈ w.st.out, r.complete = true := by
+  intro r hr
+  cases hc : r.complete with
+  | true => rfl
+  | false => exact absurd (hf.2.2.2.2 r hr hc).1 hp
+
+theorem winv_ctor (w : World) (pc : CPC) (hw : WInv name w) (hph : w.phase = .ctor pc) :
+    WInv name (ctorStep w pc) := by
+  obtain ⟨hf, hp⟩ := hw
+  have hcomp := rows_complete_of_not_running w hf (by rw [hph]; intro h; cases h)
+  obtain ⟨f1, f2, f3, f4, f5⟩ := hf
+  rw [hph] at hp
+  obtain ⟨⟨kind, hk1, hk2⟩, hc⟩ := hp
+  cases pc with
+  | rel1 =>
+    obtain ⟨c1, c2, c3, c4, c5⟩ := hc
+    have e := initSt_eq kind w.st c3 c5 hk1 hk2
+    refine ⟨⟨?_, f2, ?_, ?_, ?_⟩, ?_⟩
+    · exact f1
+    · exact f3
+    · exact f4
+    · intro r hr hc'; have := hcomp r hr; rw [hc'] at this; cases this
+    · refine ⟨c1, c2, kind, w.st.out, ?_⟩
+      simp only [ctorStep]
+      rw [e]
+      exact init_inv name kind w.st.out f4 hcomp
+  | _ =>
+    simp only [CtorOK] at hc
+    simp only [WInv, FileOK', PhaseOK, CtorOK, ctorStep]
+    grind [names]
+
+theorem winv_thread (w : World) (i : Nat) (s' : St) (hw : WInv name w) (hph : w.phase = .running)
+    (hs : step name w.st i = some s') : WInv name { w with st := s' } := by
+  obtain ⟨⟨f1, f2, f3, f4, f5⟩, hp⟩ := hw
+  rw [hph] at hp
+  obtain ⟨c1, c2, kind, old, hinv⟩ := hp
+  have hinv' := step_inv name kind old w.st s' i hinv hs
+  refine ⟨⟨?_, f2, fun _ => c2, hinv'.outNodup, ?_⟩, ?_⟩
+  · intro h; simp only at h; rw [c1] at h; cases h
+  · intro r hr hc; exact ⟨hph, hinv'.partialB r hr hc⟩
+  · simp only [hph]
+    exact ⟨c1, c2, kind, old, hinv'⟩
+
+theorem winv_step (w : World) (op : Op) (hw : WInv name w) : WInv name (wstep name w op) := by
+  cases op with
+  | newSession kind =>
+    simp only [wstep]; split
+    · rename_i hph
+      have hcomp := rows_complete_of_not_running w hw.1 (by rw [hph]; intro h; cases h)
+      obtain ⟨⟨f1, f2, f3, f4, f5⟩, _⟩ := hw
+      refine ⟨⟨f1, f2, f3, f4, ?_⟩, ⟨kind, rfl, rfl⟩, trivial⟩
+      intro r hr hc'; have := hcomp r hr; rw [hc'] at this; cases this
+    · exact hw
+  | ctor =>
+    simp only [wstep]; split
+    · rename_i pc hph; exact winv_ctor name w pc hw hph
+    · exact hw
+  | thread i =>
+    simp only [wstep]; split
+    · rename_i hph
+      split
+      · rename_i s' hs; exact winv_thread name w i s' hw hph hs
+      · exact hw
+    · exact hw
+  | crash =>
+    simp only [wstep]; split
+    · exact hw
+    · rename_i hmid
+      obtain ⟨⟨f1, f2, f3, f4, f5⟩, _⟩ := hw
+      refine ⟨⟨f1, f2, f3, f4, ?_⟩, trivial⟩
+      intro r hr hc
+      exact absurd ⟨r, hr, hc⟩ hmid
+
+theorem winv_run (ops : List Op) : ∀ w : World, WInv name w → WInv name (wrun name w ops) := by
+  induction ops with
+  | nil => intro w h; exact h
+  | cons op ops ih => intro w h; exact ih _ (winv_step name w op h)
+
+theorem winv_of_idle (w : World) (hf : FileOK' w) (hidle : w.phase = .idle) : WInv name w := by
+  refine ⟨hf, ?_⟩; rw [hidle]; trivial
+
+theorem wrun_append (w : World) (a b : List Op) :
+    wrun name w (a ++ b) = wrun name (wrun name w a) b := List.foldl_append
+
+theorem wrun_threads (sched : List Nat) : ∀ w : World, w.phase = .running →
+    wrun name w (sched.map Op.thread) = { w with st := run name w.st sched } := by
+  induction sched with
+  | nil => intro w _; rfl
+  | cons i is ih =>
+    intro w hph
+    simp only [List.map_cons, wrun, List.foldl_cons, run]
+    cases hs : step name w.st i with
+    | none =>
+      have e : wstep name w (Op.thread i) = w := by simp only [wstep, hph, hs]
+      rw [e]; exact ih w hph
+    | some s' =>
+      have e : wstep name w (Op.thread i) = { w with st := s' } := by simp only [wstep, hph, hs]
+      rw [e]; exact ih { w with st := s' } hph
+
+theorem ctor_run_eq (w : World) (hf : FileOK' w) (hidle : w.phase = .idle) (kind : Nat → Kind) :
+    wrun name w (Op.newSession kind :: List.replicate 12 Op.ctor) =
+      { outExists := true, hdrs := 1, bufExists := true, st := initSt kind w.st.out,
+        phase := .running } := by
+  obtain ⟨oe, hdrs, be, st, ph⟩ := w
+  obtain ⟨f1, f2, f3, f4, f5⟩ := hf
+  simp only at hidle f1 f2 f3
+  subst hidle
+  cases oe with
+  | false =>
+    obtain ⟨h1, h2⟩ := f1 rfl
+    subst h1
+    simp [wrun, wstep, ctorStep, List.replicate, h2, initSt]
+  | true =>
+    by_cases h0 : hdrs = 0
+    · subst h0
+      have h2 : st.out = [] := by
+        apply Classical.byContradiction; intro h; have := f3 h; omega
+      simp [wrun, wstep, ctorStep, List.replicate, h2, initSt]
+    · have h1 : hdrs = 1 := by omega
+      subst h1
+      simp [wrun, wstep, ctorStep, List.replicate, initSt]
+
+theorem restart_gen (w : World) (hf : FileOK' w) (hidle : w.phase = .idle) (kind : Nat → Kind)
+    (N : Nat) (sched : List Nat) (hsched : ∀ i ∈ sched, i < N)
+    (hdone : ∀ i < N,
+      (wrun name w (Op.newSession kind :: List.replicate 12 Op.ctor ++ sched.map Op.thread)).st.pc i = .done) :
+    let w' := wrun name w (Op.newSession kind :: List.replicate 12 Op.ctor ++ sched.map Op.thread)
+    w'.hdrs = 1 ∧ (w'.st.out.map (·.name)).Nodup ∧ (∀ r ∈ w'.st.out, r.complete = true) ∧
+    (∀ i < N, kind i = .eval → ∃ r ∈ w'.st.out, r.name = name i) ∧
+    (∀ r ∈ w.st.out, r ∈ w'.st.out) ∧
+    (∀ r ∈ w'.st.out, r ∈ w.st.out ∨ (r.tid < N ∧ kind r.tid = .eval ∧ name r.tid = r.name)) := by
+  have e : wrun name w (Op.newSession kind :: List.replicate 12 Op.ctor ++ sched.map Op.thread) =
+      { outExists := true, hdrs := 1, bufExists := true,
+        st := run name (initSt kind w.st.out) sched, phase := .running } := by
+    rw [wrun_append, ctor_run_eq name w hf hidle kind, wrun_threads name sched _ rfl]
+  rw [e] at hdone
+  simp only [e]
+  have hcomp := rows_complete_of_not_running w hf (by rw [hidle]; intro h; cases h)
+  have hinv := run_inv name kind w.st.out sched _ (init_inv name kind w.st.out hf.2.2.2.1 hcomp)
+  exact ⟨trivial, final_rows_gen name kind w.st.out N _ hinv
+    (run_moved name kind N sched _ hsched (init_moved kind w.st.out N)) hdone⟩
+
+end world
+
 end Panoptica.Agg
